@@ -86,6 +86,11 @@ def diff_streams(rep, prop, cfg, tier, seed, binary, workdir, kf):
                 rep.sample(f'{o}  =>  impl: {i}')
             if i == m:
                 continue
+            # `accept`: the property's own (weaker) relation between the implementation's answer and the specification
+            # value, where the property does not demand equality (e.g. "this value or no header at all")
+            acc = cfg.get('accept')
+            if acc and acc(o, i, m):
+                continue
             kid = known.match(kf, o, i, m)
             if kid:
                 rep.known_hits[kid] = rep.known_hits.get(kid, 0) + 1
